@@ -19,6 +19,7 @@ import (
 	"path/filepath"
 	"time"
 
+	"github.com/go-jose/go-jose/v3"
 	"github.com/google/uuid"
 	"github.com/mohae/deepcopy"
 
@@ -189,6 +190,7 @@ type Profile struct {
 	RTLifespan          int      `json:"rt_lifespan,omitempty"` // seconds; 0 => 30 days; -1 unlimited
 	CodeLifespan        int      `json:"code_lifespan,omitempty"`
 	IDKey               string   `json:"id_key,omitempty"` // key file for ID tokens / JWT ATs (default ec256a)
+	IDAlg               string   `json:"id_alg,omitempty"` // when set the key is handed to fosite as a JWK with this algorithm
 	Debug               bool     `json:"debug,omitempty"`
 	LegacyErrors        bool     `json:"legacy_errors,omitempty"`
 	JWTBearerSkipAuth   bool     `json:"jwt_bearer_skip_auth,omitempty"`
@@ -347,7 +349,20 @@ func NewWorld(p Profile) *World {
 		idk = "ec256a"
 	}
 	w.IDKey = loadKey(idk)
-	keyGetter := func(context.Context) (interface{}, error) { return w.IDKey, nil }
+	var signKey interface{} = w.IDKey
+	alg := p.IDAlg
+	if alg == "" {
+		switch idk {
+		case "ec384":
+			alg = "ES384"
+		case "ec521":
+			alg = "ES512"
+		}
+	}
+	if alg != "" {
+		signKey = &jose.JSONWebKey{Key: w.IDKey, Algorithm: alg, KeyID: "kid-" + idk, Use: "sig"}
+	}
+	keyGetter := func(context.Context) (interface{}, error) { return signKey, nil }
 	hm := compose.NewOAuth2HMACStrategy(cfg)
 	var core interface{} = hm
 	strat := &compose.CommonStrategy{
